@@ -211,3 +211,109 @@ func VP_C19_Schlick() {
 	vp.Assert(vp.Implies(c == 0, math.Abs(got-1) <= 1e-9), "grazing incidence gives total reflection")
 	vp.Reach("end")
 }
+
+// vpStubMaterial is an arbitrary material that records which of its sampling
+// entry points was used.
+type vpStubMaterial struct {
+	id                                 int
+	srcCalls, dstCalls, densCalls      int
+	dir                                model3d.Coord3D
+	density                            float64
+}
+
+func (s *vpStubMaterial) BSDF(normal, source, dest model3d.Coord3D) Color { return Color{} }
+func (s *vpStubMaterial) SampleSource(gen *rand.Rand, normal, dest model3d.Coord3D) model3d.Coord3D {
+	s.srcCalls++
+	return s.dir
+}
+func (s *vpStubMaterial) SourceDensity(normal, source, dest model3d.Coord3D) float64 {
+	s.densCalls++
+	return s.density
+}
+func (s *vpStubMaterial) SampleDest(gen *rand.Rand, normal, source model3d.Coord3D) model3d.Coord3D {
+	s.dstCalls++
+	return s.dir
+}
+func (s *vpStubMaterial) DestDensity(normal, source, dest model3d.Coord3D) float64 {
+	s.densCalls++
+	return s.density
+}
+func (s *vpStubMaterial) Emission() Color { return Color{} }
+func (s *vpStubMaterial) Ambient() Color  { return Color{} }
+
+// VP_C19_JoinedMaterial: a mixture samples the component whose
+// cumulative-probability interval contains the uniform deviate - for source
+// and for destination sampling alike (params n components, dest=0/1) - and
+// its densities are the probability-weighted sums of the components'.
+func VP_C19_JoinedMaterial() {
+	n := vp.Param("n")
+	var mats []Material
+	var stubs []*vpStubMaterial
+	var probs []float64
+	sum, wsum := 0.0, 0.0
+	for i := 0; i < n; i++ {
+		s := &vpStubMaterial{id: i, dir: vpPoint("dir"), density: vp.Float64("density")}
+		p := vp.Float64("prob")
+		vp.Assume(p > 0)
+		sum += p
+		wsum += p * s.density
+		stubs = append(stubs, s)
+		mats = append(mats, s)
+		probs = append(probs, p)
+	}
+	vp.AssumeEq(sum, 1)
+	j := &JoinedMaterial{Materials: mats, Probs: probs}
+	nrm, d := vpPoint("normal"), vpPoint("d")
+	var got model3d.Coord3D
+	if vp.Param("dest") == 1 {
+		got = j.SampleDest(vpGen(), nrm, d)
+	} else {
+		got = j.SampleSource(vpGen(), nrm, d)
+	}
+	u := vp.LastRandFloat()
+	cum := 0.0
+	calls := 0
+	for i, s := range stubs {
+		lo := cum
+		cum += probs[i]
+		c := s.srcCalls
+		if vp.Param("dest") == 1 {
+			c = s.dstCalls
+			vp.Assert(s.srcCalls == 0, "destination sampling does not use source sampling of an asymmetric component")
+		}
+		calls += c
+		vp.Assert(vp.Implies(vp.And(u > lo, u < cum), c == 1), "the component whose cumulative-probability interval contains u is sampled")
+		vp.Assert(vp.Implies(c == 1, vpEqC(got, s.dir)), "the mixture returns the chosen component's sample")
+	}
+	vp.Assert(calls == 1, "exactly one component is sampled")
+	vp.Assert(j.SourceDensity(nrm, d, d) == wsum, "SourceDensity is the probability-weighted sum")
+	vp.Assert(j.DestDensity(nrm, d, d) == wsum, "DestDensity is the probability-weighted sum")
+	vp.Reach("end")
+}
+
+// VP_C19_SphereFocus: SphereFocusPoint's sampler and density agree on when
+// they defer to the material (inside the sphere, or filtered material):
+// otherwise the density would describe a different distribution than the one
+// sampled. (That the cone sample lies in the density's support needs the
+// orthonormal-basis algebra and did not finish; not claimed.)
+func VP_C19_SphereFocus() {
+	f := &SphereFocusPoint{Center: vpPoint("center"), Radius: vp.Float64("radius")}
+	vp.Assume(f.Radius > 0)
+	if vp.Param("filter") == 1 {
+		keep := vp.Bool("filter keeps the material")
+		f.MaterialFilter = func(Material) bool { return keep }
+	}
+	mat := &vpStubMaterial{dir: vpPoint("dir"), density: vp.Float64("density")}
+	point, nrm, dest := vpPoint("point"), vpPoint("normal"), vpPoint("dest")
+	diff := point.Sub(f.Center)
+	vp.Assume(diff.Dot(diff) != f.Radius*f.Radius) // exactly on the sphere: both sides use the same comparison, not decided here
+	s := f.SampleFocus(vpGen(), mat, point, nrm, dest)
+	sampledMat := mat.srcCalls == 1
+	dens := f.FocusDensity(mat, point, nrm, s, dest)
+	askedMat := mat.densCalls == 1
+	vp.Assert(sampledMat == askedMat, "sampler and density defer to the material in exactly the same situations")
+	inside := diff.Dot(diff) < f.Radius*f.Radius
+	vp.Assert(vp.Implies(inside, sampledMat), "inside the focus sphere the material's own sampling is used")
+	vp.Assert(vp.Implies(sampledMat, vp.And(vpEqC(s, mat.dir), dens == mat.density)), "when deferring, the material's sample and density are passed through")
+	vp.Reach("end")
+}
